@@ -131,7 +131,7 @@ func init() {
 
 	checks["C16"] = eng.Check{
 		Hist:        true,
-		Rule:        "Overlay(base, Sparse): base = each of the 64 Bytes layouts over addresses 0..5 and 4 pre-filled (fragmented, symbolic) Sparse memories; every history of <=2 (quick) / <=3 (thorough) stores (addr 0..5, width 1..3 (+4 quick depth<=2), constant/symbolic/narrower values and constants equal to the base layer's content at that place) through the real Overlay; after each history every Load/Missing for a in 0..7, w in 1..4 and Blocks() compared with the layered byte map (upper layer wins, else base), and the base's own full surface compared with its initial model. Non-trivial = history with >=2 stores.",
+		Rule:        "Overlay(base, Sparse): base = each of the 64 Bytes layouts over addresses 0..5 and 4 pre-filled (fragmented, symbolic) Sparse memories; every history of <=2 (quick) / <=3 (thorough) stores (addr 0..5, width 1..3 (+4 quick depth<=2), constant/symbolic/narrower values and constants equal to the base layer's content at that place) through the real Overlay; after each history every Load/Missing for a in 0..7, w in 1..4 and Blocks() compared with the layered byte map (upper layer wins, else base), and the base's own full surface compared with its initial model. On the sparse bases and on every 9th (thorough: every) Bytes layout the histories of <=2 stores use the wide alphabet and are run in three read/write interleavings (reads after every store, none between the stores, none before the end). Non-trivial = history with >=2 stores.",
 		Assumptions: []string{"no address wrap", "values judged under 3 valuations"},
 		Run: func(r *eng.Run) {
 			alpha := memAlpha(seq(0, 5), seq(1, 3), []string{"const", "sym", "basecopy"})
